@@ -417,6 +417,8 @@ Check(e) ==
                  [] e.name = "enable_hlt" -> Len(ins) = 2 /\ ins[1].m = "sti" /\ ins[2].m = "hlt"
                  [] e.name = "wi" -> Len(ins) = 2 /\ ins[1].m = "cli" /\ ins[2].m = "sti"
                  [] OTHER -> TRUE
+      [] e.op = "rwr" ->            \* read; write x; read inside one function, register preset to p (both fully modelled)
+            e.k = "ok" /\ e.r = << e.p, e.x >>
       [] e.op = "lean" ->
             LET a == e.args[1]  b == e.args[2]  ab == AddC(a, b, 0) IN
             e.k = "ok" /\
